@@ -487,6 +487,7 @@ def check(ctx):
            'fen() prints placement, side, castling rights and e.p. square (%s)' % sorted(reads(fen)), site=fen.loc())
     import props.C16fen as c16fen
     c16fen.check(ctx, p)
+    c16fen.check_uci(ctx, p)
     ctx.note('the key\'s dependence on exactly these four components is C04.R2/R4')
 
 
